@@ -243,6 +243,9 @@ def cc_jobs(tier, cons_modes=(None, "bool", "real")):
         jobs.append(J("h_cc:HCC", N=1, D=2, M=0, proj=proj, cons=None, k=-3, inf=[0, 1], inf_keep_lo=[0], inf_keep_hi=[1]))
         jobs.append(J("h_cc:HCC", N=2, D=1, M=0, proj=proj, cons=None, k=-3, inf=[0], inf_keep_lo=[0]))
     jobs.append(J("h_cc:HCC", N=1, D=2, M=0, proj=False, cons=None, k=-3, inf=[0, 1]))
+    for proj in (True, False):     # one candidate written with +0.0 and with -0.0
+        jobs.append(J("h_cc:HCC", N=2, D=1, M=0, proj=proj, cons=None, k=-3, zero_twin=True))
+        jobs.append(J("h_cc:HCC", N=2, D=2, M=1, proj=proj, cons=None, k=-3, zero_twin=True))
     jobs.append(J("h_cc:HCC", N=2, D=1, M=1, proj=True, cons=None, k=-19))
     return jobs
 
@@ -473,8 +476,9 @@ C04_IM = {"incumbent_value_is_minimum_of_log", "incumbent_is_logged_pair", "u_be
 C04_TAIL = {"deterministic_result_is_last_iterate", "x_is_inverse_transform_of_final_u", "result_fval_fsd_are_final_state", "result_target_type"}
 _c04 = PROPS["C04"]
 _c04_jobs0 = _c04["jobs"]
-_c04["jobs"] = lambda tier: _c04_jobs0(tier) + [j for j in im_jobs(tier) if j["params"]["level0"] == 0] + [j for j in tail_jobs(tier) if j["params"]["level"] == 0]
-_c04["labels"] = _c04["labels"] | C04_IM | C04_TAIL
+_c04["jobs"] = lambda tier: _c04_jobs0(tier) + [j for j in im_jobs(tier) if j["params"]["level0"] == 0] + [j for j in tail_jobs(tier) if j["params"]["level"] == 0] + \
+    [j for j in sb_jobs("quick") if "user" in j["params"]]      # which noise-mode options make the run deterministic (target_type clause)
+_c04["labels"] = _c04["labels"] | C04_IM | C04_TAIL | {"noise_mode_follows_user_options"}
 _c04["required"] = sorted(set(_c04["required"]) | {"incumbent_value_is_minimum_of_log", "deterministic_result_is_last_iterate"})
 
 # ------------------------------------------------------------------------------------------------ C05
@@ -600,7 +604,8 @@ C19_TAIL = {"result_func_count_is_logger_count", "result_message_and_seed", "res
             "x_is_inverse_transform_of_final_u", "result_holds_copies", "result_fval_fsd_are_final_state", "deterministic_result_is_last_iterate",
             "returned_point_is_recorded_iterate_with_lowest_quantile", "result_yval_vec_is_copy", "result_has_exactly_the_documented_fields"}
 C19_CH = {"or_unknown_key_rejected", "or_known_key_by_item_and_attribute", "or_unknown_attribute_raises", "or_stored_value_is_a_copy",
-          "ih_record_unknown_key_rejected", "ih_record_then_overwrite", "ih_negative_iteration_rejected", "ih_recorded_value_is_a_copy",
+          "ih_record_unknown_key_rejected", "ih_record_then_overwrite", "ih_negative_iteration_rejected", "ih_recorded_value_is_a_copy", "ih_setitem_column_is_a_deep_copy",
+          "ih_update_operators_check_keys_and_copy", "or_update_rejects_unknown_keys", "or_setdefault_rejects_unknown_keys", "or_update_stores_copies",
           "ih_setitem_unknown_key_rejected", "witness_or", "witness_ih"}
 PROPS["C19"] = dict(
     jobs=lambda tier: lb_jobs("quick" if tier == "quick" else "thorough") + tail_jobs(tier) +
@@ -685,6 +690,10 @@ def opt_jobs(tier):
             jobs.append(J("h_opt:HOPT", name=nm, D=3, D2=1))
     for bad in ("tol_funn", "maxiter", "Display", ""):
         jobs.append(J("h_opt:HOPT", name=None, bad=bad, D=2))
+    # options a user supplies explicitly must survive the start of the run (noisy modes adjust several options)
+    ux = {"tol_stall_iters": 7, "n_train_max": 60, "n_train_min": 11, "mesh_overflow_warning": 5, "min_failed_poll_steps": 3, "mesh_noise_multiplier": 0.3}
+    for level0 in (0, 1, 2):
+        jobs.append(J("h_im:HIM", D=1, npts=2, level0=level0, B=100, nfs=10, cons=None, fault=False, seed=False, user_extra=ux))
     for D in (1, 2):
         jobs.append(J("h_bc:HBC", D=D, pat=_pat(D), spell={}, nonlinear=False, seed="sym"))
         jobs.append(J("h_bc:HBC", D=D, pat=_pat(D, x0=None), spell={v: "flat" for v in ("lb", "ub", "plb", "pub")}, nonlinear=False))
@@ -697,7 +706,8 @@ def opt_jobs(tier):
 C20_LABELS = {"user_value_takes_effect_exactly", "user_value_recorded_as_protected", "caller_dict_unchanged", "dependent_defaults_follow_user_value",
               "other_options_keep_documented_defaults", "later_instance_sees_its_own_defaults", "earlier_instance_unchanged_by_later_construction",
               "unknown_option_name_rejected", "caller_arrays_unchanged", "caller_options_unchanged", "constructor_leaves_argument_arrays_unchanged",
-              "caller_bound_arrays_not_written", "defaults_independent_of_process_history", "user_instance_independent_of_process_history"}
+              "caller_bound_arrays_not_written", "defaults_independent_of_process_history", "user_instance_independent_of_process_history",
+              "user_options_keep_their_values"}
 PROPS["C20"] = dict(
     jobs=opt_jobs, labels=C20_LABELS, required=sorted(C20_LABELS),
     bounds=dict(quick="every option name found in the two .ini files of the current tree, one symbolic override value each (non-zero real in [2^-20, 2^20]), dimensions (2, then a second instance with 3); 4 unknown names; constructor D<=2 for the caller-array clause",
